@@ -181,7 +181,7 @@ namespace ratio
                                     if (!cr.get_sat_core().new_clause({!var, !v}))
                                         throw inconsistency_exception(); // the variable has already been given two different values..
                     }
-                    var_expr e = get_core().new_enum(get_type().get_field(name).get_type(), c_vars, c_vals);
+                    expr e = get_core().new_enum(get_type().get_field(name).get_type(), c_vars, c_vals); // (an arithmetic or boolean expression for primitive fields, an object variable otherwise)..
                     exprs.insert({name, e});
                     return e;
                 }
